@@ -32,6 +32,28 @@ PROPS = {
         "assumptions": ["tags below u64::MAX (C14_no_overflow shows `expected += 1` then cannot overflow)"],
     },
 }
+PROPS["C10"] = {
+    "check_mods": ["C10"],
+    "model_out": "model_out",
+    "drivers": [{"name": "c10", "n_quick": 1500, "n_thorough": 60000}],
+    "rule": "corpus (witnesses of F1 id 0, F2 counter at 65535, F3 re-opened freed id; the unit tests) "
+            "first; then EVERY sequence over {open(None), open(Some 0..max+1), close 1..max} of length "
+            "<= 5/4/4 for max = 1/2/3 (quick) or <= 8/6/6 (thorough); then seeded random sequences: small "
+            "max (1..6, so exhaustion and reuse are frequent) and max in {65535, 65534, 1000} with the "
+            "never-used counter driven to the top by failing registrations (run-length encoded), "
+            "boundary ids, failing registrations, drain as last op. non-trivial = at least two ops and "
+            "at least one successful open; distinct = distinct (max, ops, observed results).",
+    "explanation": "C10_step / C10_run: the ChannelSlots model refines the set-of-open-ids spec for all "
+                   "channel_max <= 65535 and all op sequences; C10_counter: the u32 counter cannot "
+                   "overflow. The real ChannelSlots<()> is driven through the cfg-guarded SlotsProbe; "
+                   "results must equal the model's and, independently, be allowed by the spec (any free "
+                   "id accepted).",
+    "trusted_base": ["std HashMap / indexmap IndexSet behave as finite map / insertion-ordered set",
+                     "make_entry (mio registration) does not fail: with failing registrations only the "
+                     "correspondence is checked, the completeness clause is waived"],
+    "assumptions": ["allocation request/response plumbing (Inner::allocate_channel, IoLoopHandle0) is "
+                    "covered by the core and end-to-end drivers, not by this one"],
+}
 
 # properties not claimed, with the reason (kept current)
 NOT_APPLICABLE = {}
